@@ -209,6 +209,14 @@ func classify(b []byte, name string) string {
 	return "partial"
 }
 
+// ownershipItems renders the three ownership items of a live object for messages.
+func ownershipItems(live map[string]any) string {
+	md, _ := live["metadata"].(map[string]any)
+	lb, _ := md["labels"].(map[string]any)
+	an, _ := md["annotations"].(map[string]any)
+	return fmt.Sprintf("%s=%v %s=%v %s=%v", lblManagedBy, lb[lblManagedBy], annName, an[annName], annNS, an[annNS])
+}
+
 func coarse(b []byte, name string) string {
 	switch classify(b, name) {
 	case "absent":
@@ -712,7 +720,7 @@ func eval(t *opspace.Transition) verdict {
 			json.Unmarshal(b, &live)
 			if why := hx.OwnershipProblem(live, name, hx.Namespace); why != "" {
 				add("B", fmt.Sprintf("B-stamp|%s|%s|pre=%s", shape, d.Kind, coarse(preObjs[p], name)),
-					fmt.Sprintf("%s/%s is in the manifest of the revision just %s (live object before: %s) but after the operation: %s", d.Kind, d.Name, how, classify(preObjs[p], name), why), nil)
+					fmt.Sprintf("%s/%s is in the manifest of the revision just %s (live object before: %s) but after the operation: %s (live metadata now: %s)", d.Kind, d.Name, how, classify(preObjs[p], name), why, ownershipItems(live)), nil)
 			} else {
 				v.Stamped++
 			}
@@ -854,6 +862,9 @@ func pathStrings(path []opspace.Step) []string {
 		str := s.String()
 		if s.Op.Release != "" && s.Op.Release != rel {
 			str = "[release " + s.Op.Release + "] " + str
+		}
+		if s.Op.Chart != nil && len(s.Op.Chart.Extra) > 0 {
+			str += fmt.Sprintf(" +documents hard-coding their own ownership metadata: %v", sortedKeys(s.Op.Chart.Extra))
 		}
 		out = append(out, str)
 	}
